@@ -120,6 +120,17 @@ def assume(cond):
         raise IgnoreAttempt("assume failed")
 
 
+def assume_z(cond):
+    """Add a constraint to the path without forking (symbolic mode); native mode: the
+    model must satisfy it (models come from the solver, so it does)."""
+    with NoTracing():
+        if CTX.mode == 'sym' and _is_sym(cond):
+            context_statespace().add(cond.var)
+            return
+    if not cond:
+        raise IgnoreAttempt("assume failed")
+
+
 def note(label):
     """Record a discrete outcome label for this path (evidence / vacuity guards)."""
     with NoTracing():
